@@ -3,7 +3,7 @@
    0 < n <= len(buffer) and n = the length the header declares, dependence on the first n bytes only, rejection of
    proper prefixes, absence of undocumented exceptions. *)
 From Coq Require Import ZArith List Bool.
-From CP Require Import Core.Bytes Core.Result Frame.LVFrame Frame.Units Frame.Entry Lemmas.UnitInstances.
+From CP Require Import Core.Bytes Core.Result Frame.LVFrame Frame.Units Frame.Entry Lemmas.UnitLemmas Lemmas.UnitInstances.
 Open Scope Z_scope.
 
 Theorem C03_tls_record : frame_unit_ok parse_tls_record compose_tls_record always (lv_declared 5 tls_record_plen).
